@@ -42,7 +42,7 @@ def sig_fn(pre, op, ret, post):
 
 def run(ctx):
     quick = ctx.tier == "quick"
-    consts = {"Keys": "{1,2,3}", "Vals": "{10,20}", "Caps": "{1,2}" if quick else "{1,2,3}", "MaxCnt": 2 if quick else 3,
+    consts = {"Keys": "{1,2,3}", "Vals": "{10,20}", "Caps": "{1,2}" if quick else "{1,2,3}", "MaxCnt": 2,
               "VictimRule": '"min"'}
     ctx.rule = ("TLC enumerates every reachable (content, use-count) state within the count bound and every operation; the real "
                 "LFUCache is driven through every (observable state, operation) pair while the walk tracks the set of count "
